@@ -270,6 +270,16 @@ Proof.
 Qed.
 Print Assumptions C16_mi_symmetric_partial.
 
+(* the default intensity range of mi_loss / nmi_loss (traced): min of both minima, max of both maxima -- symmetric
+   in (input, target), so the bins of the symmetry theorem above are the same for both orders *)
+Theorem C16_mi_default_range_symmetric :
+  forall (K : fld) (fmin2 fmax2 : K -> K -> K) (xmin xmax tmin tmax : K),
+  gen_mi_default_range fmin2 fmax2 xmin xmax tmin tmax = (fmin2 xmin tmin, fmax2 xmax tmax) /\
+  ((forall a b, fmin2 a b = fmin2 b a) -> (forall a b, fmax2 a b = fmax2 b a) ->
+   gen_mi_default_range fmin2 fmax2 tmin tmax xmin xmax = gen_mi_default_range fmin2 fmax2 xmin xmax tmin tmax).
+Proof. exact mi_default_range_ok. Qed.
+Print Assumptions C16_mi_default_range_symmetric.
+
 (* ================= 6. the model is the source's formula (translator tie) ============================== *)
 Theorem C16_gen_pointwise :
   forall (K : fld), is_field K -> forall (fabs : K -> K) (x0 x1 x2 x3 y0 y1 y2 y3 w0 w1 w2 w3 c : K),
